@@ -58,7 +58,8 @@ func (r *Runtime) functionproto_toString(call FunctionCall) Value {
 	case funcObjectImpl:
 		return f.source()
 	case *proxyObject:
-		if _, ok := f.target.self.(funcObjectImpl); ok {
+		// a callable proxy stays callable after it has been revoked (its target is nil then)
+		if _, ok := f.assertCallable(); ok {
 			return asciiString("function () { [native code] }")
 		}
 	}
